@@ -32,6 +32,8 @@ TIMEV = {
     "neg-int": [-2, 0, 1, 5],
     "tenths": [0.1, 0.2, 0.30000000000000004, 0.4],
     "nonuniform": [-3.75, 1e-3, 2.5, 1e6],
+    "int-ends": [0, 0.5, 2, 3],  # integer-typed first / last stamps around a non-integer one
+    "not-monotone": [1, 0.25, 3.5, 2],  # a clock that restarts
 }
 THIRD = 1.0 / 3.0
 
